@@ -12,6 +12,23 @@ def downstream (k c value error : α) : α × α :=
   Expr.propagate (fun _ => value) (fun _ => error) (fun _ _ => Num.ofNat 0)
     (.bin .add (.bin .mul (.const k) (.var 0)) (.const c))
 
+/-- A later calculation written in terms of INTERMEDIATE RESULTS: `mid = k * a` and `mid2 = mid + c`
+    were made (and read) earlier, the new calculation is `1 * mid2`.  A calculated quantity is not a
+    source: `_evaluate_formula` and the derivative walk go through it down to the measurement, so the
+    tree that is propagated is the intermediate results' formulas put in their place -- evaluated at
+    the value and uncertainty the measurement has NOW (nothing an intermediate result displayed
+    earlier is re-used). -/
+def downstreamVia (k c value error : α) : α × α :=
+  Expr.propagate (fun _ => value) (fun _ => error) (fun _ _ => Num.ofNat 0)
+    (.bin .mul (.const (Num.ofNat 1)) (.bin .add (.bin .mul (.const k) (.var 0)) (.const c)))
+
+/-- `mid * mid` where `mid = k * a` was made earlier: a calculation that is NOT linear in the
+    intermediate result, so the derivative rules need the intermediate's central value -- it, too, is
+    the formula evaluated at the measurement's value NOW. -/
+def downstreamSq (k value error : α) : α × α :=
+  Expr.propagate (fun _ => value) (fun _ => error) (fun _ _ => Num.ofNat 0)
+    (.bin .mul (.bin .mul (.const k) (.var 0)) (.bin .mul (.const k) (.var 0)))
+
 end QExPy.Stats
 
 /-! ### two repeated measurements in one later calculation
